@@ -84,6 +84,37 @@ var c01Apps = []c01AppDef{
 		a.Nodes["two"].TplLang = map[string]string{"nor": "t/nor {{.v1}}/{{.v2}} og litt til"}
 		return a
 	}, []string{"1", "0", "zz"}, nil},
+	{"bigend", 2, func(v int) *app.App {
+		// the last page of the session is larger than every page before it, and there is no exit value
+		a := app.New("bigend")
+		a.Node("root", "s", codec.Ins{Op: codec.MOUT, Sym: "g", Sel: "1"}, codec.Ins{Op: codec.HALT}, codec.Ins{Op: codec.INCMP, Sym: "fin", Sel: "1"})
+		a.Node("fin", []string{"a rather long farewell page that needs room", "bye for now"}[v], codec.Ins{Op: codec.HALT})
+		a.Node("_catch", "o", codec.Ins{Op: codec.HALT}, codec.Ins{Op: codec.INCMP, Sym: "_", Sel: "*"})
+		return a
+	}, []string{"1", "zz"}, nil},
+	{"redisplay", 3, func(v int) *app.App {
+		// a node that displays a second time after its HALT without any move in between (two display
+		// segments; a taken CATCH . re-display as in examples/validate)
+		val := []string{"ok", "a much longer value 0123456789", strings.Repeat("w", 50)}[v]
+		a := app.New("redisplay")
+		a.FlagCount = 1
+		a.Node("root", "form {{.fld}}", codec.Ins{Op: codec.LOAD, Sym: "fld", N: 60}, codec.Ins{Op: codec.MAP, Sym: "fld"}, codec.Ins{Op: codec.MOUT, Sym: "send", Sel: "1"}, codec.Ins{Op: codec.HALT},
+			codec.Ins{Op: codec.RELOAD, Sym: "fld"}, codec.Ins{Op: codec.MOUT, Sym: "send again", Sel: "1"}, codec.Ins{Op: codec.MOUT, Sym: "or give up", Sel: "2"}, codec.Ins{Op: codec.HALT},
+			codec.Ins{Op: codec.INCMP, Sym: ".", Sel: "1"}, codec.Ins{Op: codec.INCMP, Sym: "vv", Sel: "2"})
+		a.Node("vv", "check {{.fld}}", codec.Ins{Op: codec.MAP, Sym: "fld"}, codec.Ins{Op: codec.MOUT, Sym: "retry", Sel: "1"}, codec.Ins{Op: codec.HALT}, codec.Ins{Op: codec.RELOAD, Sym: "fld"}, codec.Ins{Op: codec.CATCH, Sym: ".", N: 8, Mode: false}, codec.Ins{Op: codec.INCMP, Sym: "_", Sel: "*"})
+		a.Node("_catch", "oops", c01Catch...)
+		a.Func("fld", func(e *app.Env, sym string, in []byte, l string) (resource.Result, error) {
+			if e.Counts[sym] <= 1 {
+				return resource.Result{Content: "-"}, nil
+			}
+			r := resource.Result{Content: val}
+			if e.Counts[sym] >= 4 {
+				r.FlagSet = []uint32{8} // the CATCH . loop ends
+			}
+			return r, nil
+		})
+		return a
+	}, []string{"1", "2", "zz"}, nil},
 	{"utf8", 2, func(v int) *app.App {
 		// multi-byte text everywhere: the limit is in bytes, not characters
 		a := app.New("utf8")
